@@ -54,13 +54,24 @@ class Runner:
         self.grew = None
         self.lost = None          # (thread, window, op): asleep in out_buffer_cv.wait, not notified, window open
         self.proto = None         # addressing / non-blocking problem seen by the rig
+        self.dead = None          # the schedule cannot continue: the real code is blocked
         self.iterated = {}
 
     def step(self, op):
         w = op.split()
         if w[0] in ("close", "shutw", "pclose", "reqfail") and self.rig.threads[int(w[1])].state != "idle":
             return False
-        self.rig.do(op)
+        if self.dead:
+            return False
+        try:
+            self.rig.do(op)
+        except lib_chan.RigDeadlock as e:
+            self.dead = "%s at %r" % (e, op)
+            self.proto = self.proto or self.rig.protocol_problem() or \
+                ("deadlock:real-code-blocked-under-the-schedule", self.dead)
+            self.reqs.append(op)
+            self.impl.append("*")
+            return False
         self.reqs.append(op)
         self.impl.append(self.rig.view())
         if self.proto is None:
@@ -95,7 +106,7 @@ class Runner:
         waits = 0
         for _ in range(limit):
             lt = self.rig.threads[t]
-            if lt.state == "idle" or self.spin or self.grew:
+            if lt.state == "idle" or self.spin or self.grew or self.dead:
                 return
             if lt.state == "hold":
                 self.step("emit %d" % t)
@@ -192,6 +203,67 @@ def grid(ctx, rng, batches):
                         finally:
                             rig.teardown()
                         batches.append((case, run.reqs, run.impl))
+
+
+PAYLOADS = {
+    "bytes": lambda n: bytes((i * 7 + 1) % 251 for i in range(n)),
+    "bytearray": lambda n: bytearray((i * 5 + 3) % 251 for i in range(n)),
+    "memoryview": lambda n: memoryview(bytes((i * 3 + 2) % 251 for i in range(n))),
+    "ascii-str": lambda n: "".join(chr(97 + i % 26) for i in range(n)),
+    "str-2-byte": lambda n: "".join("éßñ"[i % 3] for i in range(n)),
+    "str-3-byte": lambda n: "".join("€あ中"[i % 3] for i in range(n)),
+    "str-4-byte": lambda n: "".join("😀𝄞"[i % 2] for i in range(n)),
+    "str-mixed": lambda n: "".join("aé€😀"[i % 4] for i in range(n)),
+}
+
+
+def payload_types(ctx, rng):
+    """sendall / sendall_stderr of every payload TYPE the socket-like API is fed in practice, each larger than one
+    packet and (second variant) larger than the window.  Oracle on the bytes the transport received: their
+    concatenation is the payload's encoding (UTF-8 for str), or the call raised.  (Message lengths are not compared
+    with the model here: the model speaks about byte strings.)"""
+    for kind, make in PAYLOADS.items():
+        for window, n in ((200000, rng.choice([5000, 9000, 13000])), (3000, rng.choice([5000, 9000]))):
+            for ext in (0, 1):
+                data = make(n)
+                expect = data.encode("utf-8") if isinstance(data, str) else bytes(data)
+                rig = lib_chan.Rig(32768, window, 4096, 2)
+                steps = []
+                try:
+                    c = rig.chan
+                    rig.call(0, "sendall", lambda: ((c.sendall_stderr if ext else c.sendall)(data), "returned")[1])
+                    steps.append("sendall(%s × %d, stderr=%d)" % (kind, n, ext))
+                    for _ in range(400):
+                        lt = rig.threads[0]
+                        if lt.state == "idle":
+                            break
+                        if lt.state == "waiting":
+                            rig.do("adjust 3000")
+                            steps.append("adjust 3000")
+                        op = {"hold": "emit 0", "loophead": "iter 0", "waiting": "wake 0 0"}[lt.state]
+                        rig.do(op)
+                        steps.append(op)
+                    got = b"".join(rig.wire_data)
+                    result = rig.threads[0].result if rig.threads[0].state == "idle" else "still-" + rig.threads[0].state
+                except lib_chan.RigDeadlock as e:
+                    got, result = b"".join(rig.wire_data), "deadlock: %s" % e
+                finally:
+                    rig.teardown()
+                case = {"payload": kind, "units": n, "encoded_bytes": len(expect), "window": window, "stderr": ext,
+                        "result": result, "bytes_received_by_transport": len(got), "wire": rig.wire[:8],
+                        "schedule": steps[:60]}
+                ctx.case(("payload", kind, n, window, ext), kind not in ("bytes",))
+                ctx.dist("payload-type:" + kind)
+                if result == "returned" and got != expect:
+                    k = next((i for i in range(min(len(got), len(expect))) if got[i] != expect[i]),
+                             min(len(got), len(expect)))
+                    ctx.fail("sendall-returned-with-data-unsent:" + kind, case,
+                             "sendall returned None but the transport received %d bytes, the payload encodes to %d; "
+                             "first difference at byte %d" % (len(got), len(expect), k))
+                elif result not in ("returned", "C", "T") and not result.startswith("deadlock"):
+                    ctx.fail("sendall-unexpected-outcome:payload-" + kind, case, result)
+                elif result.startswith("deadlock"):
+                    ctx.fail("deadlock:real-code-blocked-under-the-schedule", case, result)
 
 
 def parked_senders(ctx, rng, batches):
@@ -336,6 +408,7 @@ def run(ctx):
     batches = []
     grid(ctx, ctx.rng, batches)
     parked_senders(ctx, ctx.rng, batches)
+    payload_types(ctx, ctx.rng)
     random_part(ctx, ctx.rng, 12000 if ctx.thorough else 3000, batches)
     c19.compare(ctx, "C25", batches)
 
